@@ -6,6 +6,7 @@
   glob order live outside the model; they are exercised by real files and subprocesses in the harness.
 -/
 import KernModel.FileIO
+import KernModel.Gen.Misc
 namespace KM.C20
 open KM FileIO
 
@@ -48,6 +49,15 @@ theorem C20_same_document (P : CellParser) (text : Str) (h : OnlyLfCr text) :
 /-- outside that domain the two readers really differ (VT is a line boundary for `splitlines` only) -/
 theorem C20_domain_is_needed : csvRows ['a', Char.ofNat 0x0b, 'b'] ≠ readRows ['a', Char.ofNat 0x0b, 'b'] := by
   decide
+
+/-- **the converter's option set** (regenerated from the source of `kern_to_ekern` on every run): the `**kern` spines only, the bekern
+    categories *with their descendants* (`TokenCategory.valid(include=BEKERN_CATEGORIES)` - the unclosed set was defect F5), the extended
+    encoding; nothing else is passed, so every other option has its default -/
+theorem C20_converter_options :
+    Gen.kernToEkernOptions =
+      [("kern_type".toList, "Encoding.eKern".toList), ("spine_types".toList, "['**kern']".toList),
+       ("token_categories".toList, "TokenCategory.valid(include=BEKERN_CATEGORIES)".toList)] := by
+  decide +kernel
 
 /-! non-vacuity -/
 example : OnlyLfCr ['a','\t','b','\r','\n','c','\n'] := by
